@@ -86,4 +86,9 @@ def run(ctx, res):
     from ..coverage import check_collinearity_helper
     kc = check_collinearity_helper(ctx, res, "R12.4")
     ctx.require(res, "R12.4", kc, 2, "return sites of points_in_a_line")
+    # R12.5 no computed value is rounded on its way into the result
+    from ..exact import report_rounding
+    from ..affine import affine_scope as _ascope
+    kr = report_rounding(ctx, res, "R12.5", _ascope(ctx, [ctx.repo.fn("intersection", "calc.intersection")], ()), "the intersection")
+    ctx.require(res, "R12.5", kr, 20, "functions scanned for rounding")
     res.undecided_ob("idempotence intersection(a, a) == a; a in b => intersection(a, b) == a; associativity")
